@@ -277,8 +277,10 @@ class _EigStubBatch:
     def __call__(self, mat, *a, **kw):
         h = self.h
         vals, vecs = [], []
-        for e, (evals, evecs) in enumerate(self.units):
-            st = _EigStub(h, evals, evecs)
+        for e, unit in enumerate(self.units):
+            evals, evecs = unit[0], unit[1]
+            kw = unit[2] if len(unit) > 2 else {}
+            st = _EigStub(h, evals, evecs, **kw)
             # distinct fresh names per element
             orig_fresh = h.fresh
             fx = dict(h.opts.get('fix', {}))
@@ -322,3 +324,41 @@ def composite_fixed_points(h, n=2):
         h.proj_eq(f"unit {e}: second fixed point is its repelling endpoint", P[e][1], wants[e][1], nonzero=False)
         for k in range(2):
             h.eq(f"unit {e}: fixed point {k} is lightlike", P[e][k] @ J @ P[e][k], 0, validate=False)
+
+
+def composite_rejection(h):
+    """Hyperplane.from_reflection on a composite [reflection, rotation] must reject it: a non-reflection anywhere in the stack is an error"""
+    h.stub('kernel', mode='flag')
+    n = 2
+    v = h.arr('v', (n + 1,))
+    J = _J(n)
+    nv = v @ J @ v
+    h.assume(nv > 0, 'spacelike normal')
+    if not h.is_sym():
+        h.assume(nv > 1e-3, 'spacelike beyond the library threshold')
+    I = np.diag([1] * (n + 1))
+    M = I - 2 * np.outer(J @ v, v) / nv
+    th = transc.t_angle(h, 'theta')
+    c, s_ = (th.cos(), th.sin()) if h.is_sym() else (math.cos(th), math.sin(th))
+    h.assume(s_ != 0 if h.is_sym() else abs(s_) > 1e-3, 'proper rotation')
+    Rot = hyperbolic.Isometry.standard_rotation(th, dimension=n).proj_data
+    one = 1 + 0 * c
+    mk = (lambda a, b: FC(a, b)) if h.is_sym() else (lambda a, b: complex(a, b))
+    z = 0 * one
+    comp = []
+    for k in range(n):
+        w = h.arr(f"c{k}", (n + 1,))
+        w = w - ((w @ J @ v) / nv) * v
+        comp.append(w)
+    d = _det(np.array([v, comp[0], comp[1]], dtype=object if h.is_sym() else float))
+    h.assume(d != 0 if h.is_sym() else abs(d) > 1e-3, 'stub: eigenvectors independent')
+    cpl = lambda vec: np.array([mk(x, 0 * one) for x in vec], dtype=object if h.is_sym() else complex)
+    unit0 = ([mk(-one, z), mk(one, z), mk(one, z)], [cpl(v), cpl(comp[0]), cpl(comp[1])], dict(cplx=True, real_cols=(0, 1, 2)))
+    unit1 = ([mk(one, z), mk(c, s_), mk(c, -s_)],
+             [np.array([mk(one, z), mk(z, z), mk(z, z)], dtype=object if h.is_sym() else complex),
+              np.array([mk(z, z), mk(one, z), mk(z, -one)], dtype=object if h.is_sym() else complex),
+              np.array([mk(z, z), mk(one, z), mk(z, one)], dtype=object if h.is_sym() else complex)], dict(cplx=True, real_cols=(0,)))
+    for order in ((M, Rot, [unit0, unit1]), (Rot, M, [unit1, unit0])):
+        iso = hyperbolic.Isometry(np.array([order[0], order[1]], dtype=object if h.is_sym() else float))
+        with _with_eig(h, _EigStubBatch(h, order[2])):
+            h.raises("a composite containing a non-reflection is rejected", (GeometryError,), lambda: hyperbolic.Hyperplane.from_reflection(iso))
